@@ -89,6 +89,8 @@ class Folder:
                 return ("bool", lit["v"])
             if lit["t"] == "bytestr":
                 return ("bytes", tuple(lit["v"]))
+            if lit["t"] == "char":
+                return ("char", lit["v"])
             raise Unfoldable("literal kind " + lit["t"], sp)
         if k == "cast":
             v = self.fold(e["e"])
